@@ -26,7 +26,9 @@ fn tilt_spec(t: f32) -> (Tilt, Option<Tilt>) {
             let mut i = 0;
             while i < 4 {
                 let (b, lo, hi) = bs[i];
-                if t >= base + b - 1e-3 && t <= base + b + 1e-3 {
+                // inside the band either neighbour is accepted, EXCEPT at the boundary value itself: base + b is
+                // exactly representable and normalises exactly, so there the exact class is demanded
+                if t >= base + b - 1e-3 && t <= base + b + 1e-3 && t != base + b {
                     alt = Some(if cls == lo { hi } else { lo });
                 }
                 i += 1;
@@ -68,7 +70,7 @@ fn orient_spec(a: f32) -> (Orientation, Option<Orientation>) {
             let mut i = 0;
             while i < 8 {
                 let b = OB[i].0;
-                if a >= base + b - 1e-3 && a <= base + b + 1e-3 {
+                if a >= base + b - 1e-3 && a <= base + b + 1e-3 && a != base + b {
                     alt = Some(if cls == OB[i].1 { OB[i + 1].1 } else { OB[i].1 });
                 }
                 i += 1;
@@ -88,6 +90,7 @@ harnesses! {
         let got = Tilt::from(t);
         let (cls, alt) = tilt_spec(t);
         cover!(alt.is_some() && got != cls, "band used");
+        cover!(t == -240.0, "exact boundary value below zero");
         cover!(t < 0.0 && got == Tilt::BOTTOM, "negative angle classified BOTTOM");
         cover!(t > 360.0 && got == Tilt::SIDE, "angle above 360 classified SIDE");
         assert!(got == cls || Some(got) == alt, "C11:tilt class = exact mod-360 sector");
